@@ -82,7 +82,7 @@ mod harness {
     /// C19: the Ix1 fast path (two unchecked relabelling casts) under CBMC's pointer checks, against the
     /// general path (dynamic 1-d query); data 3x2 i64, default index axis, 2 symbolic in-range queries
     #[kani::proof]
-    #[kani::unwind(10)]
+    #[kani::unwind(20)]
     fn c19_fast_path_matches_single_calls_2d_data() {
         use ndarray::Array2;
         use ndarray_interp::interp1d::Interp1DBuilder;
